@@ -204,7 +204,7 @@ def _rename_target_fresh(t, ren, namer):
 
 
 SPECIAL = {
-    "do", "if", "cond", "when", "unless", "and", "or", "not", "setv", "setx", "let", "fn", "defn",
+    "do", "if", "cond", "when", "and", "or", "not", "setv", "setx", "let", "fn", "defn",
     "while", "for", "lfor", "sfor", "dfor", "gfor", "with", "try", "raise", "return",
     "break", "continue", "get", "cut", "global", "nonlocal", "quote", "except", "else",
     "finally", "unpack-iterable", "unpack-mapping", "assert", "del", ".", "defclass",
@@ -472,6 +472,9 @@ class World:
         self.log = []  # tree: ints and ("par", [sub,...])
         self.cur = self.log
         self.stack = []
+        # set when an exception propagates while siblings of an unordered group
+        # may or may not have run (order-dependent outcome): the log check is relaxed
+        self.relaxed = False
 
     def event(self, site):
         self.cur.append(site)
@@ -508,6 +511,11 @@ class Interp:
         self.w = world
         self.mod = Frame("module")
         self.mod.vars = module_vars  # shared dict: the oracle's "module namespace"
+        # A native generator expression evaluates its leftmost iterable at creation;
+        # a generator *function* (Hy's strategy when a gfor contains statements)
+        # evaluates it at the first next().  The docs only say gfor is lazy, so both
+        # are accepted: the comparison is tried with either setting.
+        self.gfor_lazy_first = False
 
     # -- helpers
     def par(self, children, fr, evalfn=None):
@@ -522,9 +530,18 @@ class Interp:
             self.w.push(sub)
             try:
                 vals.append((evalfn or self.ev)(c, fr))
+            except Exception:
+                if len(children) > 1:
+                    self.w.relaxed = True
+                raise
             finally:
                 self.w.pop()
         return vals
+
+    def op_guard(self, n_operands):
+        """Context for an operation whose Python expansion would raise before
+        later operands are evaluated (left folds, chained subscripts)."""
+        return _OpGuard(self.w, n_operands)
 
     def body(self, forms, fr):
         v = None
@@ -607,21 +624,23 @@ class Interp:
             f, vals = vals[0], vals[1:]
         pos = []
         kw = {}
-        for (kind, _), v in zip(items, vals):
-            if kind == "pos":
-                pos.append(v)
-            elif kind == "*":
-                pos.extend(v)
-            elif kind == "**":
-                for k2 in v.keys():
-                    if k2 in kw:
-                        raise TypeError("got multiple values for keyword argument %r" % k2)
-                    kw[k2] = v[k2]
-            else:
-                name = kind[3:].replace("-", "_")
-                if name in kw:
-                    raise TypeError("got multiple values for keyword argument %r" % name)
-                kw[name] = v
+        # unpacking can raise before Python would have evaluated later arguments
+        with self.op_guard(3 if len(items) > 1 else 0):
+            for (kind, _), v in zip(items, vals):
+                if kind == "pos":
+                    pos.append(v)
+                elif kind == "*":
+                    pos.extend(v)
+                elif kind == "**":
+                    for k2 in v.keys():
+                        if k2 in kw:
+                            raise TypeError("got multiple values for keyword argument %r" % k2)
+                        kw[k2] = v[k2]
+                else:
+                    name = kind[3:].replace("-", "_")
+                    if name in kw:
+                        raise TypeError("got multiple values for keyword argument %r" % name)
+                    kw[name] = v
         return f(*pos, **kw)
 
     def display_items(self, x, fr):
@@ -643,13 +662,14 @@ class Interp:
     def f_lbracket(self, x, fr):
         kinds, vals = self.display_items(x, fr)
         out = []
-        for k, v in zip(kinds, vals):
-            if k == "*":
-                out.extend(v)
-            elif k == "**":
-                raise RefError("#** in list display has no Python construct")
-            else:
-                out.append(v)
+        with self.op_guard(3 if len(vals) > 1 else 0):
+            for k, v in zip(kinds, vals):
+                if k == "*":
+                    out.extend(v)
+                elif k == "**":
+                    raise RefError("#** in list display has no Python construct")
+                else:
+                    out.append(v)
         return out
 
     def f_tuple(self, x, fr):
@@ -662,15 +682,16 @@ class Interp:
         kinds, vals = self.display_items(x, fr)
         out = {}
         i = 0
-        while i < len(vals):
-            if kinds[i] == "**":
-                out.update(vals[i])
-                i += 1
-            elif kinds[i] == "*":
-                raise RefError("#* in dict display")
-            else:
-                out[vals[i]] = vals[i + 1]
-                i += 2
+        with self.op_guard(3 if len(vals) > 1 else 0):
+            while i < len(vals):
+                if kinds[i] == "**":
+                    out.update(vals[i])
+                    i += 1
+                elif kinds[i] == "*":
+                    raise RefError("#* in dict display")
+                else:
+                    out[vals[i]] = vals[i + 1]
+                    i += 2
         return out
 
     # -- simple control
@@ -985,6 +1006,13 @@ class Interp:
             if c[0] in ("iter", "setv"):
                 names.update(_target_names(c[1]))
         cf = Frame("comp", fr, names)
+        # Python: the leftmost iterable of a comprehension / generator expression is
+        # evaluated immediately, in the enclosing scope (this is what makes gfor
+        # "lazy except for its first iterable")
+        first = [None]
+        lazy_first = h == "gfor" and self.gfor_lazy_first
+        if cl and cl[0][0] == "iter" and not lazy_first:
+            first[0] = iter(self.ev(cl[0][2], fr))
 
         def rec(i):
             if i == len(cl):
@@ -1002,7 +1030,7 @@ class Interp:
                 yield from rec(i + 1)
             else:
                 # the first iterable is evaluated in the enclosing scope
-                for v in self.ev(c[2], cf if i else fr):
+                for v in (first[0] if (i == 0 and not lazy_first) else self.ev(c[2], cf if i else fr)):
                     self.bind(c[1], v, cf)
                     yield from rec(i + 1)
 
@@ -1048,22 +1076,25 @@ class Interp:
                 pairs.append((m[i], m[i + 1]))
                 i += 2
         body = x[2:]
-        sentinel = object()
+        # "with returns the value of its last form, unless it suppresses an exception
+        # ..., in which case it returns None": the value is the body's value when the
+        # body ran to completion, None when an exception cut it short and a manager
+        # suppressed it.  (An exception raised by an inner __exit__ *after* the body
+        # completed, and suppressed by an outer manager, leaves the body's value.)
+        res = [None]
 
         def rec(i):
             if i == len(pairs):
-                return self.body(body, fr)
+                res[0] = self.body(body, fr)
+                return
             var, mf = pairs[i]
-            res = [sentinel]
             with self.ev(mf, fr) as got:
                 if var != "_":
                     self.bind(var, got, fr)
-                res[0] = rec(i + 1)
-            # still the sentinel: an exception was suppressed at this level
-            return res[0]
+                rec(i + 1)
 
-        r = rec(0)
-        return None if r is sentinel else r
+        rec(0)
+        return res[0]
 
     def f_try(self, x, fr):
         parts = list(x[1:])
@@ -1112,10 +1143,13 @@ class Interp:
 
     # -- subscripts
     def f_get(self, x, fr):
+        # (get o k1 k2 ...) is o[k1][k2]...: each subscript happens before the next
+        # key is evaluated
         vals = self.par(x[1:], fr)
         o = vals[0]
-        for k in vals[1:]:
-            o = o[k]
+        with self.op_guard(len(vals)):
+            for k in vals[1:]:
+                o = o[k]
         return o
 
     def f_cut(self, x, fr):
@@ -1181,21 +1215,30 @@ class Interp:
             return None
         if any(is_form(a, "unpack-iterable") for a in x[1:]):
             raise RefError("operator with #* : pyops fallback, use printer oracle")
-        vals = self.par(x[1:], fr)
         if h in _CMPOPS:
-            if len(vals) == 0:
+            # documented expansion: Python's chained comparison a1 < a2 < ... < an,
+            # which stops evaluating operands once a link is false
+            args = x[1:]
+            if len(args) == 0:
                 raise RefError("comparison needs args")
-            if len(vals) == 1:
+            if len(args) == 1:
                 if h == "!=":
                     raise RefError("!= needs 2")
+                self.par(args, fr)
                 return True
-            r = True
-            for a, b in zip(vals, vals[1:]):
-                r = _CMPOPS[h](a, b)
+            vals = self.par(args[:2], fr)
+            left, right = vals
+            r = _CMPOPS[h](left, right)
+            for a in args[2:]:
                 if not r:
                     return r
+                left = right
+                right = self.ev(a, fr)
+                r = _CMPOPS[h](left, right)
             return r
-        return self.fold(h, vals)
+        vals = self.par(x[1:], fr)
+        with self.op_guard(len(vals)):
+            return self.fold(h, vals)
 
     def fold(self, h, vals):
         n = len(vals)
@@ -1238,6 +1281,19 @@ class Interp:
 
 class _Suppressed(BaseException):
     pass
+
+
+class _OpGuard:
+    def __init__(self, w, n):
+        self.w, self.n = w, n
+
+    def __enter__(self):
+        return self
+
+    def __exit__(self, et, ev, tb):
+        if et is not None and self.n > 2 and issubclass(et, Exception):
+            self.w.relaxed = True
+        return False
 
 
 _MANGLE = {"[": "lbracket", "#(": "tuple", "{": "dict", "#{": "set", ".": "dot", ":": "kw",
@@ -1320,3 +1376,33 @@ def _match_any_order(seg, subs):
         if log_matches(seg, [e for s in perm for e in s]):
             return True
     return False
+
+
+def log_matches_relaxed(log, items):
+    """Order-dependent outcome (an exception cut an unordered group short): the
+    flat log must be a linear extension of some down-closed part of `items`."""
+    pos = 0
+    for it in items:
+        if pos == len(log):
+            return True
+        if isinstance(it, int):
+            if log[pos] != it:
+                return False
+            pos += 1
+        else:
+            subs = it[1]
+            sets = [_sites(s) for s in subs]
+            allsites = set()
+            for st in sets:
+                allsites |= st
+            n = _size(it)
+            seg = []
+            while pos + len(seg) < len(log) and len(seg) < n and log[pos + len(seg)] in allsites:
+                seg.append(log[pos + len(seg)])
+            for s, st in zip(subs, sets):
+                if not log_matches_relaxed([e for e in seg if e in st], s):
+                    return False
+            pos += len(seg)
+            if len(seg) < n:
+                return pos == len(log)
+    return pos == len(log)
